@@ -85,11 +85,14 @@ CLAIMED = {
             "1-3 watches are collected by the real agent with and without the budget being hit and the table + watch "
             "results must equal the machine's. Known finding: a watch on locals() dangles (listed).",
             TRUSTED + "; object identity is CPython id() for objects alive during the event"),
-    'C01': (['Guard', 'Trace_Guard', 'Dispatch', 'Trace_Dispatch'],
+    'C01': (['Guard', 'Trace_Guard', 'Dispatch', 'Trace_Dispatch', 'Ambient', 'Trace_Ambient'],
             "TLA+ spec Guard.tla (sections of the event handler x fault kinds, invariants NeverEscapes / StaysInstalled) "
             "model-checked with TLC; a fault raised at every line the real handler executes (and in every plugin "
             "callback) for 10 configuration x event cases, each run validated against the spec by TLC; differential "
-            "live runs of generated host programs with and without the agent, traces validated by Trace_Dispatch",
+            "live runs of generated host programs with and without the agent, traces validated by Trace_Dispatch; TLA+ "
+            "spec Ambient.tla (interpreter-wide state as versioned facets: the program changes them, a hit handled by "
+            "the agent changes none) model-checked and real interleavings of program steps and hits validated by "
+            "Trace_Ambient",
             "The guard structure is tiny and exhaustively checked; the binding is fault enumeration over every executed "
             "agent line (~2,000 sites per case, both Exception and BaseException; a 120-site sample per case in quick) "
             "plus differential runs of random programs (recursion, generators, exceptions, threads). Fault enumeration "
@@ -149,7 +152,8 @@ CLAIMED = {
             "TLA+ spec Plugins.tla (configure -> load -> one activity per callback kind; invariants LoadedSet, "
             "LoadedOrder, NotLoadedNeverCalled, Isolation) model-checked with TLC incl. the AbortOnFirstFailure "
             "deviation; simulated behaviours materialised as generated plugin classes and driven through the real "
-            "load_plugins / Deep.start / trigger / shutdown, every plugin's callbacks compared with the spec state",
+            "load_plugins / Deep.start / trigger / shutdown, every plugin's callbacks compared with the spec state; "
+            "NextLife: plugins switched on/off between two starts on one configuration object, both lives compared",
             "All configurations of <=2 plugins over the full grid (5.7M states) and <=3 over a reduced grid are "
             "model-checked; sampled behaviours with up to 3 plugins are replayed on the real agent (snapshot+log, metric "
             "and span tracepoints on one line) comparing loaded order, callback multisets, snapshot delivery and "
